@@ -369,6 +369,7 @@ pub struct Node {
     pub twin: Option<(F, AccumulatingRuntime<Id>)>,
     pub poisoned: bool,
     pub peer_check: bool,
+    last_state: String,
 }
 
 pub struct TraceWriter {
@@ -377,6 +378,8 @@ pub struct TraceWriter {
     pub events: u64,
     pub panics: u64,
     pub enabled: bool,
+    /// compact events for the cluster monitors (no conformance)
+    pub lite: bool,
 }
 
 impl TraceWriter {
@@ -388,10 +391,11 @@ impl TraceWriter {
             events: 0,
             panics: 0,
             enabled: true,
+            lite: false,
         }
     }
     pub fn null() -> Self {
-        TraceWriter { out: Box::new(std::io::sink()), seq: 0, events: 0, panics: 0, enabled: false }
+        TraceWriter { out: Box::new(std::io::sink()), seq: 0, events: 0, panics: 0, enabled: false, lite: false }
     }
     pub fn write(&mut self, mut v: Value) {
         self.seq += 1;
@@ -443,7 +447,7 @@ impl Node {
         } else {
             None
         };
-        let node = Node { idx, ncfg, foca, rng, twin, poisoned: false, peer_check: true };
+        let node = Node { idx, ncfg, foca, rng, twin, poisoned: false, peer_check: true, last_state: String::new() };
         let v = json!({
             "ev": "new", "now": now, "node": idx,
             "codec": node.ncfg.codec.name(),
@@ -592,6 +596,73 @@ impl Node {
         v
     }
 
+    /// compact event: what the cluster-level monitors read
+    fn lite_json(&mut self, c: &Call, res: &Res, effects: &[Effect], now: u64, pre_id: Id) -> Value {
+        let mut k = String::new();
+        let mut from = NO_ID;
+        let mut din: Vec<Value> = vec![];
+        let mut acc = false;
+        let name = match c {
+            Call::Data(d) => {
+                let p = codec::parse(self.ncfg.codec, d);
+                if let Some(h) = &p.header {
+                    k = crate::sim::kind_name(&h.message).to_string();
+                    from = h.src;
+                    // accepted as addressed to this instance (as far as the public identity tells)
+                    acc = h.dst == pre_id || (h.message == foca::Message::Announce && h.dst.addr == pre_id.addr);
+                }
+                din = p.members.iter().map(|(m, _)| member_json(m)).collect();
+                "data"
+            }
+            Call::Timer(t) => {
+                k = timer_json(t)["k"].as_str().unwrap_or("").to_string();
+                "timer"
+            }
+            Call::ApplyMany(ms, _) => {
+                din = ms.iter().map(member_json).collect();
+                "apply_many"
+            }
+            Call::Announce(_) => "announce",
+            Call::Gossip => "gossip",
+            Call::Broadcast => "broadcast",
+            Call::Leave => "leave",
+            Call::ChangeId(_) => "change_identity",
+            Call::Reuse => "reuse",
+            Call::AddBcast(_) => "add_broadcast",
+            Call::SetConfig(_) => "set_config",
+        };
+        let mut notes = vec![];
+        let mut sk = vec![];
+        let mut sd = vec![];
+        for e in effects {
+            match e {
+                Effect::Notify(n) => notes.push(notif_json(n)),
+                Effect::Send { dst, data } => {
+                    let p = codec::parse(self.ncfg.codec, data);
+                    sk.push(json!(p.header.map(|h| crate::sim::kind_name(&h.message)).unwrap_or("?")));
+                    sd.push(id_json(dst));
+                }
+                Effect::Timer { .. } => {}
+            }
+        }
+        let (state, same) = if self.poisoned {
+            (json!([]), true)
+        } else {
+            let st = json!(self.foca.iter_membership_state().map(member_json).collect::<Vec<_>>());
+            let key = st.to_string();
+            if key == self.last_state {
+                (json!([]), true)
+            } else {
+                self.last_state = key;
+                (st, false)
+            }
+        };
+        let idv = if self.poisoned { id_json(&NO_ID) } else { id_json(self.foca.identity()) };
+        json!({"ev": "call", "lite": true, "now": now, "node": self.idx, "call": name, "res": res.json(),
+               "k": k, "from": id_json(&from), "din": din, "acc": acc, "notes": notes, "sk": sk, "sd": sd,
+               "id": idv, "state": state, "same": same})
+    }
+
     /// Performs one public call and records it.
     pub fn call(&mut self, c: &Call, tw: &mut TraceWriter, now: u64) -> Outcome {
         self.call_tagged(c, tw, now, Value::Null)
@@ -599,6 +670,7 @@ impl Node {
 
     pub fn call_tagged(&mut self, c: &Call, tw: &mut TraceWriter, now: u64, tag: Value) -> Outcome {
         let mut rt = RecRuntime::default();
+        let pre_id = if self.poisoned { NO_ID } else { self.id() };
         let res = if self.poisoned {
             Res::Err("Poisoned")
         } else {
@@ -645,7 +717,10 @@ impl Node {
                 });
             }
         }
-        if tw.enabled {
+        if tw.enabled && tw.lite {
+            let v = self.lite_json(c, &res, &rt.effects, now, pre_id);
+            tw.write(v);
+        } else if tw.enabled {
             let (name, args) = self.args_json(c);
             let mut v = json!({
                 "ev": "call", "now": now, "node": self.idx,
